@@ -42,6 +42,8 @@ type Case struct {
 	TTLms     int // 0 = no expiry
 	Steps     []Step
 	Workers   int // concurrent variant
+	// Bulky: most certificates carry 300-450 KiB of padding and the ranges read are long (> 1 MiB of entries)
+	Bulky bool
 }
 
 // genSpec draws chain specs from a small space so that issuers repeat (chains de-duplicate in storage).
@@ -59,6 +61,15 @@ func genSpec(t *rapid.T, label string) world.ChainSpec {
 	if s.Precert {
 		s.PreIssuer = rapid.IntRange(0, 2).Draw(t, label+"pi") == 0
 		s.PoisonPos = rapid.IntRange(0, 5).Draw(t, label+"pp")
+	}
+	switch rapid.IntRange(0, 11).Draw(t, label+"top") {
+	case 0:
+		s.RootTwin = 1 // a re-issued copy of the root is submitted above the last CA
+	case 1:
+		s.RootTwin = 2 // a cross-certificate for the root, issued by another trusted root
+	case 2:
+		// a trusted root submitted on its own: the stored chain is empty
+		s = world.ChainSpec{ID: s.ID, Root: s.Root, RootOnly: true, IncludeRoot: true}
 	}
 	return s
 }
@@ -120,6 +131,19 @@ func genCase(t *rapid.T, faults bool) Case {
 		c.TTLms = rapid.SampledFrom([]int{0, 0, 3600000, 3600000, 3600000, 3600000, 3600000, 2}).Draw(t, "ttl")
 	}
 	c.Steps = genSteps(t, rapid.IntRange(4, 30).Draw(t, "n"), faults)
+	if rapid.IntRange(0, 11).Draw(t, "bulky") == 0 {
+		c.Bulky = true
+		for i := range c.Steps {
+			switch st := &c.Steps[i]; st.Kind {
+			case "submit":
+				if !st.Spec.RootOnly && rapid.IntRange(0, 3).Draw(t, "bulk") != 0 {
+					st.Spec.Bulk = rapid.IntRange(300, 450).Draw(t, "kib") << 10
+				}
+			case "entries":
+				st.B = 3 + st.B%4
+			}
+		}
+	}
 	return c
 }
 
@@ -466,6 +490,15 @@ func (r *rig) submit(v *harness.Verdict, s *world.ChainSpec) {
 	}
 	if len(b.Full) == 2 {
 		v.Class("issuer-is-root")
+	}
+	if b.Spec.RootOnly {
+		v.Class("root-submitted-alone(empty-chain)")
+	}
+	if b.Spec.RootTwin != 0 {
+		v.Class("root-twin-in-chain")
+	}
+	if b.Spec.Bulk > 0 {
+		v.Class("bulky-certificate")
 	}
 	if len(b.Full) >= 5 {
 		v.Class("long-chain")
